@@ -1622,7 +1622,6 @@ func vfC25Run(t *testing.T, cs vfC25Case, out *vfC25Out, isKnown func(string) bo
 		// ---- oracle ------------------------------------------------------------------------------------------------
 		be.mu.Lock()
 		finalEpoch := be.epoch
-		polledFinal := be.pollsOK > pollsBefore
 		learned := false // the server certainly saw the final epoch: a poll answered with it during the final phase
 		for _, e := range be.pollEpoch[pollsBefore:] {
 			if e == finalEpoch {
@@ -1729,7 +1728,8 @@ func vfC25Run(t *testing.T, cs vfC25Case, out *vfC25Out, isKnown func(string) bo
 				}
 			}
 			// bounded liveness
-			if closed || !st.subscribed || survivor || !polledFinal {
+			// (no poll at all during the final phase is not an excuse: a tracked key must be polled every interval)
+			if closed || !st.subscribed || survivor {
 				continue
 			}
 			for _, k := range vfC25Keys {
@@ -1937,17 +1937,46 @@ func TestVF_C25(t *testing.T) {
 	})
 }
 
-// TestVF_C25_Scenario runs one hand-written schedule (debugging aid; not part of the check's test list).
+// TestVF_C25_Scenario runs hand-written schedules (minimal reproductions of the findings; debugging aid, not part of
+// the check's test list). VF_C25_SCENARIO selects one: prevdata | hubjoin | epoch | revoke | pollremoval.
 func TestVF_C25_Scenario(t *testing.T) {
-	if os.Getenv("VF_C25_SCENARIO") == "" {
+	which := os.Getenv("VF_C25_SCENARIO")
+	if which == "" {
 		t.Skip("debug only")
 	}
-	cs := vfC25Case{Versioned: true, Keep: false, SendPrev: true, IntervalMs: 1000, Pad: 60,
-		Conns: []vfC25ConnCfg{{Proto: ProtocolTypeJSON, Delta: true}, {Proto: ProtocolTypeProtobuf, Delta: true}, {Proto: ProtocolTypeJSON}},
-		Steps: []vfC25Step{{Kind: vfC25Sub, Conn: 0}, {Kind: vfC25Track, Conn: 0, Batches: [][]vfC25Pick{{{Key: 0}}}},
-			{Kind: vfC25Set, Key: 0, Bump: 1}, {Kind: vfC25Adv, Adv: 2},
-			{Kind: vfC25ArmPoll, Trig: 2}, {Kind: vfC25Publish, Key: 0}, {Kind: vfC25Set, Key: 0, Bump: 1}, {Kind: vfC25Release}}}
+	tr := func(conn int, gateB bool, keys ...int) vfC25Step {
+		var b []vfC25Pick
+		for _, k := range keys {
+			b = append(b, vfC25Pick{Key: k})
+		}
+		return vfC25Step{Kind: vfC25Track, Conn: conn, GateB: gateB, Batches: [][]vfC25Pick{b}}
+	}
+	conns := []vfC25ConnCfg{{Proto: ProtocolTypeJSON, Delta: true}, {Proto: ProtocolTypeProtobuf, Delta: true}, {Proto: ProtocolTypeJSON}}
+	var cs vfC25Case
+	switch which {
+	case "prevdata":
+		cs = vfC25Case{Versioned: true, SendPrev: true, IntervalMs: 1000, Pad: 60, Conns: conns,
+			Steps: []vfC25Step{{Kind: vfC25Sub, Conn: 0}, tr(0, false, 0), {Kind: vfC25Set, Key: 0, Bump: 1}, {Kind: vfC25Adv, Adv: 2},
+				{Kind: vfC25ArmPoll, Trig: 2}, {Kind: vfC25Publish, Key: 0}, {Kind: vfC25Set, Key: 0, Bump: 1}, {Kind: vfC25Release, Trig: 1}}}
+	case "hubjoin":
+		cs = vfC25Case{Versioned: true, IntervalMs: 1000, Pad: 60, Conns: conns,
+			Steps: []vfC25Step{{Kind: vfC25Sub, Conn: 0}, tr(0, true, 0), {Kind: vfC25Notify, Keys: []int{0}}, {Kind: vfC25Release}}}
+	case "epoch":
+		cs = vfC25Case{Versioned: true, EpochMode: 1, IntervalMs: 1000, Pad: 60, Shutdown: 3, Conns: conns,
+			Steps: []vfC25Step{{Kind: vfC25Sub, Conn: 0}, tr(0, false, 0), {Kind: vfC25Adv, Adv: 0}, {Kind: vfC25Sub, Conn: 0}, {Kind: vfC25Sub, Conn: 1}, tr(0, false, 0),
+				{Kind: vfC25Adv, Adv: 2}, {Kind: vfC25Epoch}, {Kind: vfC25Adv, Adv: 2}, {Kind: vfC25Sub, Conn: 0}, tr(0, false, 0)}}
+	case "revoke":
+		cs = vfC25Case{Versioned: true, IntervalMs: 1000, Pad: 60, Conns: conns,
+			Steps: []vfC25Step{{Kind: vfC25Sub, Conn: 0}, {Kind: vfC25Sub, Conn: 1}, tr(0, false, 0), {Kind: vfC25Adv, Adv: 1}, {Kind: vfC25ArmBcast},
+				{Kind: vfC25Revoke, Keys: []int{0}}, tr(1, false, 0), {Kind: vfC25Release, Trig: 2}, {Kind: vfC25Set, Key: 0, Bump: 1}}}
+	case "pollremoval":
+		cs = vfC25Case{Versioned: true, IntervalMs: 1000, Pad: 60, Conns: conns,
+			Steps: []vfC25Step{{Kind: vfC25Sub, Conn: 0}, {Kind: vfC25Remove, Key: 0}, tr(0, true, 0), {Kind: vfC25Notify, Keys: []int{0}}, {Kind: vfC25Release},
+				{Kind: vfC25Set, Key: 0, Bump: 1, Gate: true}}}
+	default:
+		t.Skip("unknown scenario")
+	}
 	out := &vfC25Out{knownEx: map[string]string{}}
 	msg := vfC25Run(t, cs, out, func(string) bool { return false })
-	fmt.Fprintf(os.Stderr, "DBG verdict=%q labels=%v\n", msg, out.labels)
+	fmt.Fprintf(os.Stderr, "DBG scenario %s: %s\nDBG verdict=%q\n", which, cs.String(), msg)
 }
